@@ -87,6 +87,9 @@ type tgen struct {
 	// carry explicit, different tags). Not for types that are also read under a tag name no field has,
 	// where both would read the same lower-cased name.
 	exportedTwins bool
+	// iface: percentage of type draws that yield a place of type interface{} (or a map, list, array of such
+	// places, or a pointer to one) pre-filled with a typed value; 0 = none (see iface_test.go)
+	iface int
 }
 
 func avoided() map[string]bool {
@@ -135,6 +138,9 @@ func (g *tgen) typ(depth int) *gen.TD {
 	case depth >= 2:
 		w = [7]int{3, 5, 7, 11, 12, 15, 18}
 	}
+	if g.iface > 0 && depth >= 0 && rapid.IntRange(0, 99).Draw(g.t, "iface") < g.iface {
+		return g.ifaceT(depth)
+	}
 	k := rapid.IntRange(0, w[6]-1).Draw(g.t, "tk")
 	switch {
 	case k < w[0]:
@@ -152,6 +158,10 @@ func (g *tgen) typ(depth int) *gen.TD {
 		}
 		if k := stripPtr(e).Shape().Kind; g.avoid["D30"] && (k == "slice" || k == "map") {
 			e = td("int")
+		}
+		if e.Kind == "iface" {
+			// no *interface{}: Unpack stores the raw *Config of an object setting there (an oddity of its own, not generated)
+			return e
 		}
 		return &gen.TD{Kind: "ptr", Elem: e}
 	case k < w[3]:
@@ -388,6 +398,7 @@ type cgen struct {
 	sep       string          // PathSep of the call
 	noMention map[string]bool // Go paths (".F1.F0") of fields that must stay without a setting (aliases of non-flat values)
 	foreignOn bool            // also write settings under names only the other views read
+	mention   int             // percentage of the fields that get a setting (0: 70)
 }
 
 func (g *cgen) pick(vs ...*gen.Tree) *gen.Tree {
@@ -458,6 +469,12 @@ func (g *cgen) setting(t *gen.TD, tv *gen.TV, gp string, others []*gen.TD) *gen.
 	switch sh.Kind {
 	case "ptr":
 		return g.setting(sh.Elem, elemTV(0), "-", oe)
+	case "iface":
+		// a setting that is valid for what the place holds; anything for the untyped nil
+		if sh.Elem == nil || tv == nil || tv.Nil || len(tv.Elems) == 0 {
+			return g.genericSetting()
+		}
+		return g.setting(sh.Elem, tv.Elems[0], "-", oe)
 	case "slice":
 		n := rapid.IntRange(0, 3).Draw(g.t, "llen")
 		l := gen.List()
@@ -547,6 +564,9 @@ func (g *cgen) fill(o *gen.Tree, sh *gen.TD, tv *gen.TV, gp string, others []*ge
 			continue
 		}
 		r := rapid.IntRange(0, 99).Draw(g.t, "mention")
+		if g.mention > 0 && !(f.Ignore || f.Unexp) {
+			r = r * 70 / g.mention // the first g.mention percent get a setting
+		}
 		switch {
 		case f.Ignore || f.Unexp:
 			// a setting under the name of a field Unpack must skip
@@ -676,6 +696,13 @@ func sites(t *gen.TD, cfg *gen.Tree, sep string) []site {
 		}
 		sh := t.Shape()
 		switch sh.Kind {
+		case "iface":
+			// the setting is read into what the place holds; a place that never holds anything accepts any setting
+			if sh.Elem != nil {
+				visit(sh.Elem, parent, pos, fd, owner, fname, path)
+			} else {
+				leaves++
+			}
 		case "struct":
 			if s.K != "obj" {
 				return
